@@ -535,6 +535,50 @@ Proof.
   inversion H; subst. apply find_some in Ef. destruct Ef. eauto.
 Qed.
 
+(* ---------------------------------------------------------------- registry histories *)
+Lemma text_eqb_sym : forall a b, text_eqb a b = text_eqb b a.
+Proof.
+  induction a as [|x a IH]; destruct b as [|y b]; simpl; auto. rewrite N.eqb_sym. rewrite IH. reflexivity.
+Qed.
+Lemma mem_add_tag : forall t u l, mem t (add_tag u l) = if text_eqb t u then true else mem t l.
+Proof.
+  intros t u l. unfold add_tag. destruct (text_eqb t u) eqn:E.
+  - apply text_eqb_eq in E. subst. destruct (mem u l) eqn:M; auto. unfold mem. simpl. rewrite text_eqb_refl. reflexivity.
+  - destruct (mem u l); auto. unfold mem. simpl. rewrite E. reflexivity.
+Qed.
+Lemma mem_del_tag : forall t u l, mem t (del_tag u l) = if text_eqb t u then false else mem t l.
+Proof.
+  intros t u l. unfold del_tag, mem. induction l as [|x l IH]; simpl.
+  - destruct (text_eqb t u); reflexivity.
+  - destruct (text_eqb x u) eqn:Ex; simpl.
+    + apply text_eqb_eq in Ex. subst. rewrite IH. destruct (text_eqb t u); reflexivity.
+    + rewrite IH. destruct (text_eqb t u) eqn:Et; auto.
+      apply text_eqb_eq in Et. subst. rewrite text_eqb_sym, Ex. reflexivity.
+Qed.
+Lemma mem_upd : forall t add u l, mem t (upd add u l) = if text_eqb t u then add else mem t l.
+Proof. intros. unfold upd. destruct add. apply mem_add_tag. apply mem_del_tag. Qed.
+
+(* in-place registries: whatever the entry points, no subclass ever gets its own registry, and the shared one holds
+   exactly the tags whose last call was a register *)
+Lemma inplace_fold : forall t h st b,
+  rs_shadow st = [] -> mem t (rs_base st) = b ->
+  rs_shadow (fold_left (reg_step true) h st) = [] /\
+  mem t (rs_base (fold_left (reg_step true) h st)) = fold_left (last_wins t) h b.
+Proof.
+  induction h as [|op h IH]; simpl; intros st b Hs Hm; auto.
+  apply IH.
+  - unfold reg_step. destruct (op_ep op); simpl; auto. rewrite Hs. simpl. auto.
+  - unfold reg_step, last_wins. destruct (op_ep op); simpl; [|rewrite Hs; simpl]; rewrite mem_upd, Hm; reflexivity.
+Qed.
+
+Lemma inplace_history : forall k h s t,
+  mem t (effective true k h s) = currently_registered k h t.
+Proof.
+  intros k h s t. unfold effective, run_hist, currently_registered, view.
+  destruct (inplace_fold t (of_kind k h) {| rs_base := []; rs_shadow := [] |} false eq_refl eq_refl) as [H1 H2].
+  rewrite H1. simpl. exact H2.
+Qed.
+
 (* ---------------------------------------------------------------- at the tables generated from Pyro5/serializers.py *)
 From V Require Import Gen.GenClassTag Harness.H04.
 
@@ -623,4 +667,46 @@ Proof.
   exists [witness_payload]. split.
   - repeat constructor.
   - vm_compute. auto 10.
+Qed.
+
+(* ---------------------------------------------------------------- registry histories at the generated mode *)
+Lemma gen_registries_inplace : reg_d2c_inplace && reg_c2d_inplace = true.
+Proof. vm_compute. reflexivity. Qed.
+
+Lemma gen_registry_histories : forall k h s t, mem t (gen_effective k h s) = currently_registered k h t.
+Proof.
+  intros k h s t. unfold gen_effective. pose proof gen_registries_inplace as H. apply andb_true_iff in H. destruct H as [H1 H2].
+  destruct k; [rewrite H1 | rewrite H2]; apply inplace_history.
+Qed.
+
+(* only_registry_escapes over histories: after ANY sequence of register / unregister calls through any entry points,
+   decoding with ANY serializer runs the converter exactly for the tags whose last call was a register *)
+Lemma gen_only_registry_escapes_hist : forall h ser,
+  (forall tag flag imps t, gen_decide (gen_effective KD2C h ser) tag flag = (imps, ACustom t) -> currently_registered KD2C h t = true) /\
+  (forall s flag, currently_registered KD2C h s = true -> gen_decide (gen_effective KD2C h ser) (VStr s) flag = ([], ACustom s)).
+Proof.
+  intros h ser. destruct (gen_only_registry_escapes (gen_effective KD2C h ser)) as [H1 H2]. split.
+  - intros tag flag imps t Hd. rewrite <- (gen_registry_histories KD2C h ser t). apply In_mem. eapply H1; eauto.
+  - intros s flag Hc. apply H2. rewrite gen_registry_histories. exact Hc.
+Qed.
+
+Lemma gen_recreate_types_hist : forall h ser call parts,
+  Forall plain parts ->
+  let reg := gen_effective KD2C h ser in
+  Forall (event_ok gen_env reg) (fst (gen_run reg ser call parts)) /\
+  (forall t, In (EvConverter t) (fst (gen_run reg ser call parts)) -> currently_registered KD2C h t = true) /\
+  forall out, snd (gen_run reg ser call parts) = Ok out -> Forall (vall (class_ok gen_env reg)) out.
+Proof.
+  intros h ser call parts Hp reg. destruct (gen_recreate_types reg ser call parts Hp) as [H1 H2]. split; [|split]; auto.
+  intros t Hin. rewrite Forall_forall in H1. specialize (H1 _ Hin). simpl in H1.
+  unfold reg in H1. rewrite <- (gen_registry_histories KD2C h ser t). apply In_mem. exact H1.
+Qed.
+
+(* the defective variant: registries rebound through cls.  Registering through a concrete serializer class and
+   unregistering through the api leaves the converter active for that serializer. *)
+Lemma rebind_refuted : exists h s t, mem t (effective false KD2C h s) = true /\ currently_registered KD2C h t = false.
+Proof.
+  exists [ {| op_add := true; op_ep := EpSer 3; op_kind := KD2C; op_tag := txt "shop.Order" |};
+           {| op_add := false; op_ep := EpBase; op_kind := KD2C; op_tag := txt "shop.Order" |} ], 3%N, (txt "shop.Order").
+  vm_compute. auto.
 Qed.
